@@ -38,9 +38,14 @@ def i64(z):
     return -M63 <= z < M63
 
 
+def rlen(pr):
+    """len() of Python's own range object, also beyond sys.maxsize (len() itself overflows there)"""
+    return pr.index(pr[-1]) + 1 if pr else 0
+
+
 def nowrap_py(a, b, s):
     r = range(a, b, s)
-    return len(r) == 0 or i64(a + len(r) * s)
+    return rlen(r) == 0 or i64(a + rlen(r) * s)
 
 
 def triples(r, n):
@@ -88,7 +93,7 @@ Definition nowrap (a b s : Z) : bool :=
   (py_range_len a b s =? 0) || in_i64b (a + py_range_len a b s * s).
 Definition case3 (r : Range) (a b s : Z) : list (list Z) :=
   [[py_range_len a b s; b2z (nowrap a b s)]; iter_prefix %d (range_iter r); spec_prefix a b s; full (range_iter r)].
-""" % (K, CAP + 2, K)
+""" % (K, CAP + 1, K)
 
 
 def coq_case(c):
@@ -272,7 +277,7 @@ def run(ctx):
         else:
             a, b, s = py_args(c)
         pr = range(a, b, s)
-        exp_prefix, exp_n = list(pr[:K]), (len(pr) if len(pr) <= CAP else None)
+        exp_prefix, exp_n = list(pr[:K]), (rlen(pr) if rlen(pr) <= CAP else None)
         if not nowrap_py(a, b, s):
             wrap_cases += 1
             if (a, b, s) == WITNESS and c["form"] == "3" and (e[0] != "ok" or e[1] != exp_prefix or e[2] != exp_n):
@@ -290,7 +295,7 @@ def run(ctx):
                    {"case": c, "implementation_source_executed": e, "replay": replay(c),
                     "theorem": "range_seq_refuted / range_comptime_size_refuted in coq/C18/Props.v"})
     # ---- model vs executed source, spec vs Python
-    model_dis = spec_dis = compared = 0
+    model_dis = spec_dis = compared = model_fail = 0
     model_ok = tr_err is None and (vlib.COQ / "C18" / "ModelIter.vo").exists()
     if model_ok:
         try:
@@ -312,11 +317,19 @@ def run(ctx):
                         continue
                 a, b, s = py_args(c) if c["form"] != "comptime" else (0, c["args"][0], 1)
                 pr = range(a, b, s)
-                if head != [len(pr), int(nowrap_py(a, b, s))] or sprefix != list(pr[:K]):
+                if nowrap_py(a, b, s) and (mprefix != list(pr[:K]) or mcount != (rlen(pr) if rlen(pr) <= CAP else None)):
+                    model_fail += 1
+                    if model_fail <= 3 and not spec_fail:
+                        ctx.report("range:" + c["form"] + ":" + ",".join(map(str, c["args"])), "counterexample",
+                                   "model generated from the current iter.py/num.py differs from Python's range (side condition holds)",
+                                   {"case": c, "python_first_values": list(pr[:K]), "python_length": rlen(pr), "model_first_values": mprefix,
+                                    "model_length(None=more than %d)" % CAP: mcount, "replay": replay(c),
+                                    "int_ops": "see int_dunder_ops in coq/C18/GenRange.v"})
+                if head != [rlen(pr), int(nowrap_py(a, b, s))] or sprefix != list(pr[:K]):
                     spec_dis += 1
                     if spec_dis <= 3:
                         ctx.report(f"spec-mismatch:{c}", "correspondence", "Coq py_range/py_range_len/no_wrap vs Python's range",
-                                   {"case": c, "coq": [head, sprefix], "python": [len(pr), nowrap_py(a, b, s), list(pr[:K])]})
+                                   {"case": c, "coq": [head, sprefix], "python": [rlen(pr), nowrap_py(a, b, s), list(pr[:K])]})
         except RuntimeError as ee:
             model_ok = False
             ctx.notes.append(f"model evaluation failed: {ee}")
@@ -345,7 +358,7 @@ def run(ctx):
         if emu_dis:
             ctx.report("op-semantics", "correspondence", "ModelWrap.v op semantics vs selene runtime (venv guppylang 1.0.4)",
                        {"notes": ctx.notes[-3:]}, found_input=True)
-    if not info["ok"] and not spec_fail:
+    if not info["ok"] and not spec_fail and not model_fail:
         ctx.report("proof-broken:" + str(info["failed"]), "proof-broken", str(info["failed"]),
                    {"coq_error": vlib.CoqResult(False, info["log"]).error_excerpt(), "searched_cases": len(cases),
                     "wrap_cases_skipped": wrap_cases}, found_input=False)
@@ -362,7 +375,7 @@ def run(ctx):
         rule="evaluations = (form, arguments) cases executed on the source text of iter.py and in the Coq model + programs compiled by /repo; non-trivial = the loop yields at least one value",
         cases=len(cases), triples_distribution=hist, outside_side_condition=wrap_cases,
         model_vs_source_compared=compared, model_disagreements=model_dis, spec_vs_python_disagreements=spec_dis,
-        source_vs_python_failures=len(spec_fail), hugr=hfacts, hugr_problems=len(hprobs),
+        source_vs_python_failures=len(spec_fail), model_vs_python_failures=model_fail, hugr=hfacts, hugr_problems=len(hprobs),
         comptime_2pow63_accepted_by_repo=big_accepted,
         emulator_ranges=len(emu_ranges) if emu is not None else 0, emulator_disagreements=emu_dis,
         samples=[{"case": cases[j], "executed_source": ex[j]} for j in (0, len(cases) // 2, len(cases) - 1)],
